@@ -15,7 +15,8 @@ EXPLANATION = (
     "NotACompileTimeConstant for deeper layers; R6 code table 402/422/424/426/482/433 and the parameter/member remapping; "
     "R7 visitor completeness: every field of every node that can contain a Reference, Expression or ValueType reaches an "
     "analyze call (reviewed exceptions: type annotations that are only filled in by the typer). Soundness of the pruning "
-    "algorithm over all control-flow graphs is not decided.")
+    "algorithm over all control-flow graphs is not decided."
+    " ADDED LATER: R8 who may write the scoper's state (scope stack, pruning tables, the constant-initialiser context).")
 
 VR = "alpha::scoper::variable_references::"
 AN = VR + "Analyzer::"
